@@ -91,13 +91,16 @@ def _probe_tree():
     files["cache.d/kept.py"] = "def kept(n):\n    print(n, 3612)\n    return n\n"
     files[".thailintignore"] = "*_gen\nstale\n"
     files["stale/old.py"] = "def old(n):\n    print(n, 3613)\n    return n\n"
-    for n in ("probe_alias.py", "probe_regex.py", "probe_list.py", "probe_str.py"):
+    for n in ("probe_alias.py", "probe_regex.py", "probe_list.py", "probe_str.py", "probe_from_re.py", "probe_local_search.py"):
         files["pairs/" + n] = PROBES[n]
     _zoo, cfg, _index = load.zoo_project()
     # the project's own configuration is strict; alt/choice.yaml (for --config / config_file=)
     # mentions other sections only: nothing of the project's file may leak into such a run
     files["alt/choice.yaml"] = yaml_dump({"srp": {"max_methods": 9}, "dry": {"enabled": False}})
     files["alt/empty.yaml"] = "# nothing chosen here\n"
+    # a second auto-discovered carrier with other (looser) settings: .thailint.yaml has precedence
+    # for the command line and for the library alike
+    files[".thailint.json"] = __import__("json").dumps({"nesting": {"max_nesting_depth": 9}, "magic-numbers": {"allowed_numbers": [3601, 3611, 3612, 3613, 3614, 42, 7]}})
     # a source directory whose NAME ends like a compiled artefact
     files["assets/scenes.obj/loader.py"] = "def load(n):\n    print(n, 3614)\n    return n\n"
     return files, load.deep_merge(cfg, {"dry": {"enabled": True}, "nesting": {"max_nesting_depth": 1}, "magic-numbers": {"allowed_numbers": []}, "ignore": ["cache.d"]})
